@@ -26,6 +26,7 @@ var rules = map[string]ruleFn{
 	"C11": ruleC11,
 	"C12": ruleC12,
 	"C13": ruleC13,
+	"C14": ruleC14,
 	"C15": ruleC15,
 	"C16": ruleC16,
 	"C18": ruleC18,
